@@ -37,6 +37,10 @@ static void observe(void *c, const model_t *m, const char *after) {
     int n = m->n;
     size_t sz = KIND == 0 ? Q->size(Q) : KIND == 1 ? S->size(S) : G->size(G);
     if ((int)sz != n) vc_viol("seq:size", "after %s: size() = %zu, expected %d", after, sz, n);
+    /* optional out-parameters omitted: same answers */
+    if (KIND == 0) { void *a = Q->get(Q, NULL, false), *b = Q->getat(Q, 0, NULL, false); if ((a != NULL) != (n > 0) || (b != NULL) != (n > 0)) vc_viol("seq:null-size-pointer", "after %s: qqueue get/getat without a size pointer disagree with %d elements", after, n); }
+    else if (KIND == 1) { void *a = S->get(S, NULL, false), *b = S->getat(S, 0, NULL, false); if ((a != NULL) != (n > 0) || (b != NULL) != (n > 0)) vc_viol("seq:null-size-pointer", "after %s: qstack get/getat without a size pointer disagree with %d elements", after, n); }
+    else { void *a = G->toarray(G, NULL); if ((a != NULL) != (n > 0)) vc_viol("seq:null-size-pointer", "after %s: qgrow toarray without a size pointer disagrees with %d pieces", after, n); free(a); }
     if (KIND == 2) {
         unsigned char exp[64]; size_t en = 0; char exps[64]; size_t sn = 0;
         for (int i = 0; i < n; i++) { const el_t *e = E(m->e[i]); memcpy(exp + en, e->b, e->n); en += e->n; size_t k = e->n; if (e->b[k - 1] == 0) k--; memcpy(exps + sn, e->b, k); sn += k; }
